@@ -736,7 +736,7 @@ func main() {
 	}
 	thorough := r.Thorough()
 	none := [][]string{nil}
-	budget = 45 * time.Second // the build takes up to 10 s of the 60 s
+	budget = 180 * time.Second // quick: generous, so that a loaded machine does not cut the sweep short (the run budget is 4 min)
 	if thorough {
 		budget = 9 * time.Minute
 	}
